@@ -26,10 +26,35 @@ def flatten_and(t, out):
     return out
 
 
+def _rebuild(q, body, forall):
+    """quantifier with the bound variables of q over a new body"""
+    k = q.num_vars()
+    consts = [z3.Const(f"bv!{q.var_name(i)}!{i}", q.var_sort(i)) for i in range(k)]
+    inst = z3.substitute_vars(body, *reversed(consts))
+    return z3.ForAll(consts, inst) if forall else z3.Exists(consts, inst)
+
+
+def normalize_goal(goal):
+    """not (exists x. B)  ->  forall x. not B      (so that the goal can be skolemised)"""
+    if z3.is_not(goal) and z3.is_quantifier(goal.arg(0)) and goal.arg(0).is_exists():
+        q = goal.arg(0)
+        return _rebuild(q, z3.Not(q.body()), True)
+    return goal
+
+
+def exists_goal_as_hyp(goal):
+    """for a goal `exists x. B`: its negation `forall x. not B` (to be instantiated like a hypothesis:
+    ground instances of it that contradict the hypotheses prove the goal), else None"""
+    if z3.is_quantifier(goal) and goal.is_exists():
+        return _rebuild(goal, z3.Not(goal.body()), True)
+    return None
+
+
 def skolemize(goal, tag):
     """strip leading universal quantifiers of a goal (to be proved)"""
     sk = []
     n = 0
+    goal = normalize_goal(goal)
     while z3.is_quantifier(goal) and goal.is_forall():
         k = goal.num_vars()
         consts = []
@@ -130,6 +155,9 @@ def ground_version(hyps, goal, skolems, extra_cands=()):
     flat = []
     for h in hyps:
         flatten_and(h, flat)
+    eh = exists_goal_as_hyp(goal)
+    if eh is not None:
+        flat.append(eh)
     ground = [h for h in flat if not has_q(h)]
     quant = [h for h in flat if has_q(h)]
     if not quant:
@@ -139,7 +167,7 @@ def ground_version(hyps, goal, skolems, extra_cands=()):
     # skolem constants and their neighbours (recursion equations are stated at k / k+1)
     sk_int = [c for c in skolems if z3.is_int(c)]
     cands = list(sk_int) + list(extra_cands) + index_terms([goal]) \
-        + [c + 1 for c in sk_int] + [c - 1 for c in sk_int] + index_terms(ground, 6)
+        + [c + 1 for c in sk_int] + [c - 1 for c in sk_int] + index_terms(ground, 10 if eh is not None else 6)
     seen, cs = set(), []
     for c in cands:
         if c.get_id() not in seen:
